@@ -16,7 +16,7 @@ fn main() {
     }
     let plan = driver_set(Prop::C02, thorough);
     let labels: Vec<String> = plan.iter().map(|p| format!("{} ({:?})", p.driver.label, p.mode)).collect();
-    rep.rule = format!("stateless exploration (vsched) of all interleavings at atomic/lock operations and call boundaries of histogram drivers (buckets {:?}; observations are distinct powers of two so every snapshot sum names its set of observations; each driver from 3 start states: fresh / after observe+collect / after two collections with observations and a local batch in between). Mode U = unbounded with sleep sets; Mode B(k) = all schedules with <=k preemptions; deviation: at most one spurious compare_exchange_weak failure per execution (thorough: every Mode-U driver; quick: the Mode-U drivers with <=4 calls). Drivers: {:?}. distinct = distinct (snapshot sets, real-time relation) outcomes", BOUNDS, labels);
+    rep.rule = format!("stateless exploration (vsched) of all interleavings at atomic/lock operations and call boundaries of histogram drivers (buckets {:?}; observations are distinct powers of two so every snapshot sum names its set of observations; each driver from 3 start states: fresh / after observe+collect / after two collections with observations and a local batch in between). Mode U = unbounded with sleep sets; Mode B(k) = all schedules with <=k preemptions; deviation: at most one spurious compare_exchange_weak failure per execution (thorough: every Mode-U driver; quick: the Mode-U drivers with <=3 calls). Drivers: {:?}. distinct = distinct (snapshot sets, real-time relation) outcomes", BOUNDS, labels);
     rep.bounds = json!({"threads": "2-4", "collections": "1-4", "buckets": BOUNDS, "drivers": plan.len()});
     let cap = if thorough { 1_500_000 } else { 150_000 };
     let results = run_set(plan, cap, if thorough { 3 } else { 2 });
